@@ -18,6 +18,11 @@ HARNESS = os.path.join(ROOT, "harness")
 OUT = os.path.join(ROOT, "out")
 EVID = os.path.join(ROOT, "evidence")
 KNOWN = os.path.join(ROOT, "KNOWN_FINDINGS.json")
+if os.environ.get("VERIF_REPO"):
+    # development runs against a scratch worktree keep their scratch files and evidence apart from the real ones
+    _alt = "alt_" + os.path.basename(os.environ["VERIF_REPO"].rstrip("/"))
+    OUT = os.path.join(ROOT, "out", _alt)
+    EVID = os.path.join(OUT, "evidence")
 NCPU = os.cpu_count() or 4
 
 
